@@ -999,6 +999,9 @@ type LoopSpec struct {
 	BodyObl func(c *Ctx, before, after *State, idx string)
 	// ContinueIf: contract clauses that must hold at every back edge of the loop
 	ContinueIf []*Clause
+	// FailsOnlyIf: conditions over the state at the start of an iteration that must hold whenever the iteration
+	// returns with a non-nil error (the last result): "an error is reported only for a locally malformed input"
+	FailsOnlyIf []*Clause
 	// EntryObl: extra obligations on the state in which the loop is entered (before any havoc)
 	EntryObl func(c *Ctx, pre *State)
 }
@@ -1087,7 +1090,21 @@ func (c *Ctx) execFor(x *ast.ForStmt, st *State) Flow {
 		body = c.withGuard(h, ct)
 	}
 	before := body.clone()
+	nrets := len(c.rets)
 	f := c.exec(x.Body, body)
+	for _, cl := range ls.FailsOnlyIf {
+		for i, r := range c.rets[nrets:] {
+			if len(r.Vals) == 0 {
+				continue
+			}
+			ev, ok := r.Vals[len(r.Vals)-1].(ErrV)
+			if !ok {
+				continue
+			}
+			why := c.specBool(cl, &SpecEnv{c: c, st: before, entry: c.entry, at: x.Body.Lbrace})
+			c.addObl(Obl{Name: fmt.Sprintf("%s/fails-only-if[%s]@ret%d", key, cl.Label, i+1), Kind: "loop.fails", Guard: r.St.guard, Goal: implies("(not (= "+ev.T+" 0))", why), Pos: c.pos(r.Pos), Text: "an iteration returns an error only if " + cl.Text})
+		}
+	}
 	for _, back := range append(f.nexts(), f.cont...) {
 		if back != nil && x.Post != nil {
 			back = c.one(c.exec(x.Post, back))
